@@ -3,14 +3,17 @@ from __future__ import annotations
 
 import json
 
+from translator.c10 import FALLBACK, translate
+
 from .. import core
 from ..core import Broken, Ctx, Violation
 
 PROP_FILE = "Properties/C10.v"
 
 TRUSTED = [
-    "no translator: the three walks of fitting_datatree.py are hand-modelled in Model/Decision.v and tied to the "
-    "code by correspondence only (every run)",
+    "translator/c10.py (fail-closed python-ast reader of ParameterValues.__init__/.boundaries, _set_bound, "
+    "convert_to_parameters, update_processor, __init__/get_bounds, fitness): what it extracts is believed; the "
+    "description it emits is also run against the implementation on every case (mismatches_g, hist_mismatches)",
     "correspondence harness: harness/props/c10.py generators, harness/drivers/c10.py, probes/verif_probes_c10.py "
     "(thread-local capture of the arguments a model receives), float.hex() -> exact rationals",
     "modelled, not verified: numpy slicing/assignment semantics (a[..., s:t] = f(a[..., s:t]) clamps at the end), "
@@ -21,7 +24,8 @@ TRUSTED = [
 ]
 
 CLAUSES = {1: "bounds_layout", 2: "conversion_log_slices", 3: "outside_declared_bounds", 4: "reported_not_applied",
-           5: "decision_vector_modified", 6: "candidate_outside_box", 7: "refusal_rule"}
+           5: "decision_vector_modified", 6: "candidate_outside_box", 7: "refusal_rule",
+           8: "declaration_modified", 9: "processor_modified"}
 
 
 def h(x: float) -> str:
@@ -164,6 +168,94 @@ def malformed_case(r):
     return case
 
 
+KINDS = [("s", False, False), ("s", True, False), (2, False, False), (2, True, False), (2, False, True), (2, True, True)]
+
+
+def small_scope_layouts(max_vars=3):
+    """Every list of 1..max_vars variables over the six kinds (scalar / vector x linear / logarithmic x shared /
+    per-component boundaries): 6 + 36 + 216 layouts."""
+    import itertools
+    out = []
+    for n in range(1, max_vars + 1):
+        out += [list(t) for t in itertools.product(KINDS, repeat=n)]
+    return out
+
+
+def gen_history(r, layout=None, n_ops=None):
+    """A history on shared objects: several problem constructions from the same ParameterValues objects and the
+    same processor, interleaved with get_bounds / convert_to_parameters / fitness / update_processor on any of
+    the problems built so far."""
+    if layout is None:
+        layout = [(None, None, None)] * r.choice([1, 2, 2, 3, 3, 4])
+        if r.random() < 0.5:
+            # the kind whose arrays are views on the kept boundaries: a logarithmic vector with its own pairs
+            layout[r.randrange(len(layout))] = (r.choice([2, 3, 4]), True, True)
+    case = make_case(r, layout)
+    comps = []
+    for v in case["vars"]:
+        w = 1 if v["n"] is None else v["n"]
+        b = v["bnd"]
+        pairs = [(b[1], b[2])] * w if b[0] == "shared" else [tuple(x) for x in b[1]]
+        for lo, hi in pairs:
+            lo, hi = float.fromhex(lo), float.fromhex(hi)
+            if v["log"]:
+                import math
+                comps.append(("log", float(round(math.log10(lo))), float(round(math.log10(hi)))))
+            else:
+                comps.append(("lin", lo, hi))
+
+    def vec(how):
+        return [h(point(r, c, how)) for c in comps]
+
+    n_ops = n_ops or r.choice([4, 5, 6, 7, 8, 9])
+    ops, built = [["build"]], 1
+    while len(ops) < n_ops:
+        k = r.random()
+        if k < 0.28:
+            ops.append(["build"])
+            built += 1
+        elif k < 0.40:
+            ops.append(["bounds", r.randrange(built)])
+        elif k < 0.55:
+            ops.append(["convert", r.randrange(built), vec(r.choice(["lo", "hi", "in", "half"]))])
+        elif k < 0.80:
+            ops.append(["fitness", r.randrange(built), vec(r.choice(["lo", "hi", "in", "in"]))])
+        else:
+            ops.append(["update", r.randrange(built), vec(r.choice(["lo", "hi", "in"]))])
+    if built < 2:
+        ops.append(["build"])
+        built += 1
+    # the problem built last and the one built first are both used after every construction
+    ops.append(["bounds", 0])
+    ops.append(["fitness", built - 1, vec("in")])
+    ops.append(["fitness", 0, vec("hi")])
+    ops.append(["bounds", built - 1])
+    return dict(mode="hist", vars=case["vars"], ops=ops)
+
+
+def gen_calib2(r, layout, runs):
+    case = make_case(r, layout, mode="calib2")
+    return dict(mode="calib2", vars=case["vars"],
+                runs=[dict(algo=a, seed=sd, islands=i, generations=2, pop=8, evolutions=2, num_best=3)
+                      for a, sd, i in runs])
+
+
+HIST_LAYOUTS = [FIXED_LAYOUTS[k] for k in (2, 3, 4, 6, 7, 1, 10, 8)]
+
+
+def gen_histories(ctx: Ctx, n_hist: int, calib2s: list):
+    r = ctx.rng("histories")
+    cases = [gen_history(r, lay) for lay in HIST_LAYOUTS]
+    if not ctx.quick:
+        # exhaustive small scope: every list of 1..2 variables over the six kinds, one fixed-shape history each
+        cases += [gen_history(r, lay, n_ops=5) for lay in small_scope_layouts(2)]
+    while len(cases) < n_hist:
+        cases.append(gen_history(r))
+    for k, runs in enumerate(calib2s):
+        cases.append(gen_calib2(r, HIST_LAYOUTS[k % len(HIST_LAYOUTS)], runs))
+    return cases
+
+
 def gen_cases(ctx: Ctx, n_direct: int, n_malformed: int, calibs: list):
     r = ctx.rng("cases")
     cases = []
@@ -172,6 +264,9 @@ def gen_cases(ctx: Ctx, n_direct: int, n_malformed: int, calibs: list):
     for lay in FIXED_LAYOUTS:
         cases.append(make_case(r, lay))
         cases.append(make_case(r, lay))
+    if not ctx.quick:
+        # exhaustive small scope: every list of 1..3 variables over the six kinds
+        cases += [make_case(r, lay) for lay in small_scope_layouts(3)]
     while len(cases) < n_direct:
         cases.append(make_case(r))
     for _ in range(n_malformed):
@@ -180,7 +275,14 @@ def gen_cases(ctx: Ctx, n_direct: int, n_malformed: int, calibs: list):
         lay = FIXED_LAYOUTS[[1, 2, 4, 3, 6, 8][k % 6]]
         cases.append(make_case(r, lay, mode="calib", algo=algo, seed=seed, islands=islands,
                                generations=2, pop=8, evolutions=2, num_best=3))
+    # declarations of total width one (C10-F1: the island's row became a 0-d array in the final application)
+    for k, lay in enumerate([] if ctx.quick else WIDTH_ONE_LAYOUTS):      # quick: the corpus case
+        cases.append(make_case(r, lay, mode="calib", algo="sade", seed=20 + k, islands=1 + k % 2,
+                               generations=1, pop=8, evolutions=1, num_best=2))
     return cases
+
+
+WIDTH_ONE_LAYOUTS = [[("s", True, False)], [("s", False, False)], [(1, True, True)], [(1, False, False)]]
 
 
 # ------------------------------------------------------------------------------------------ Coq emission
@@ -265,12 +367,107 @@ def strip_bystanders(p):
 def emit_file(pairs) -> str:
     body = ";\n  ".join(emit_case(c, o) for c, o in pairs)
     return ("From Coq Require Import ZArith QArith List String.\n"
-            "From PyxelV Require Import Model.Decision.\n"
+            "From PyxelV Require Import Model.Decision Model.DecisionSrc.\n"
+            "From PyxelGen Require Import Gen_C10.\n"
             "Import ListNotations.\nLocal Open Scope Q_scope.\n"
             f"Definition cases : list c10_case := [\n  {body}\n].\n"
             "Eval vm_compute in mismatches cases.\n"
-            "Eval vm_compute in violations cases.\n"
-            "Eval vm_compute in violation_details cases.\n")
+            "Eval vm_compute in violation_details cases.\n"
+            "Eval vm_compute in mismatches_g src_desc cases.\n")
+
+
+# ---- histories
+
+
+def emit_qvar(v) -> str:
+    """An observed ParameterValues object as @var Q; anything of an unexpected kind becomes unmatchable."""
+    key = v["key"]
+    n, log, b = v["n"], v["log"], v["bnd"]
+    if n == "other":
+        key, n = key + "?values", None
+    if log == "other":
+        key, log = key + "?logarithmic", False
+    if b is None:
+        bnd = "NoB"
+    elif b[0] == "shared":
+        bnd = f"(Shared ({q(b[1])}) ({q(b[2])}))"
+    elif b[0] == "per":
+        bnd = "(PerComp " + core.clist(f"({q(lo)}, {q(hi)})" for lo, hi in b[1]) + ")"
+    else:
+        key, bnd = key + "?boundaries", "NoB"
+    shape = "None" if n is None else f"(Some {core.cnat(n)})"
+    return f"mkVar {core.cstr(key)} {shape} {core.cbool(log)} {bnd}"
+
+
+def emit_config(a) -> str:
+    items = []
+    for key, kind, vals in a:
+        if kind == "s" and len(vals) == 1:
+            items.append(f"({core.cstr(key)}, AScalar {q(vals[0])})")
+        elif kind == "v":
+            items.append(f"({core.cstr(key)}, AVector {core.clist(q(x) for x in vals)})")
+        else:
+            items.append(f"({core.cstr(key + '?' + kind)}, AVector nil)")
+    return core.clist(items)
+
+
+def emit_snapshot(sn) -> str:
+    return (f"{{| sn_vars := {core.clist(emit_qvar(v) for v in sn['vars'])}; sn_proc := {emit_config(sn['proc'])}; "
+            f"sn_own := {core.clist(emit_config(c) for c in sn['own'])} |}}")
+
+
+def initial_config(case):
+    cfg = []
+    for v in case["vars"]:
+        z = (0.0).hex()
+        cfg.append([v["key"], "s", [z]] if v["n"] is None else [v["key"], "v", [z] * v["n"]])
+    return cfg + [["m0.fixed", "s", [SEVEN]], ["m1.fixed", "s", [SEVEN]]]
+
+
+def declared_snapshot(case):
+    return dict(vars=[dict(key=v["key"], n=v["n"], log=v["log"], bnd=v["bnd"]) for v in case["vars"]],
+                proc=initial_config(case), own=[])
+
+
+PKIND = {"convert": "PConvert", "fitness": "PFitness", "update": "PUpdate"}
+
+
+def hist_steps(case, obs):
+    """The observed steps; a refusal of the ParameterValues objects themselves is a refused first build."""
+    if "steps" in obs:
+        return obs["steps"]
+    return [dict(op="build", refused=obs.get("refused_objects", "?"), snap=declared_snapshot(case))]
+
+
+def emit_hist(case, obs, snaps: dict) -> str:
+    steps = []
+    for st in hist_steps(case, obs):
+        txt = emit_snapshot(st["snap"])
+        name = snaps.setdefault(txt, f"sn_{len(snaps)}")
+        if st["op"] == "build":
+            hop = "HBuild None" if "lb" not in st else \
+                f"HBuild (Some ({core.clist(q(x) for x in st['lb'])}, {core.clist(q(x) for x in st['ub'])}))"
+        elif st["op"] == "bounds":
+            hop = f"HBounds {core.cnat(st['pid'])} ({core.clist(q(x) for x in st['lb'])}, {core.clist(q(x) for x in st['ub'])})"
+        else:
+            hop = f"HProbe {core.cnat(st['pid'])} {PKIND[st['op']]} ({emit_probe(strip_bystanders(st))})"
+        steps.append(f"{{| h_op := {hop}; h_snap := {name} |}}")
+    vs = core.clist(emit_var(v) for v in case["vars"])
+    return f"{{| hc_vars := {vs}; hc_proc := {emit_config(initial_config(case))}; hc_steps := {core.clist(steps)} |}}"
+
+
+def emit_hist_file(pairs) -> str:
+    snaps: dict = {}
+    body = ";\n  ".join(emit_hist(c, o, snaps) for c, o in pairs)
+    defs = "".join(f"Definition {name} : snapshot := {txt}.\n" for txt, name in snaps.items())
+    return ("From Coq Require Import ZArith QArith List String.\n"
+            "From PyxelV Require Import Model.Decision Model.DecisionSrc.\n"
+            "From PyxelGen Require Import Gen_C10.\n"
+            "Import ListNotations.\nLocal Open Scope Q_scope.\n"
+            + defs +
+            f"Definition hists : list c10_hist := [\n  {body}\n].\n"
+            "Eval vm_compute in hist_mismatches src_desc hists.\n"
+            "Eval vm_compute in hist_details hists.\n")
 
 
 # ------------------------------------------------------------------------------------------ decision inputs
@@ -281,7 +478,8 @@ def layout_class(case):
     first_vec = next((i for i, v in enumerate(vs) if v["n"] is not None), None)
     vec_before_scalar = first_vec is not None and any(v["n"] is None for v in vs[first_vec + 1:])
     return dict(vector_before_scalar=vec_before_scalar, any_log=any(v["log"] for v in vs),
-                any_per_component=any(v["bnd"] and v["bnd"][0] == "per" for v in vs))
+                any_per_component=any(v["bnd"] and v["bnd"][0] == "per" for v in vs),
+                total_width_one=sum(1 if v["n"] is None else v["n"] for v in vs) == 1)
 
 
 def to_violation(case, obs, clauses, pb) -> Violation:
@@ -311,27 +509,50 @@ def to_violation(case, obs, clauses, pb) -> Violation:
                      what=what, sig=sig)
 
 
-def correspondence(ctx: Ctx, cases, tag="c", workers=8):
-    obs = core.run_driver(ctx, "c10", cases, workers=workers)
-    pairs = []
-    for c, o in zip(cases, obs):
-        if "crash" in o or "driver_error" in o or "calib_error" in o:
-            ctx.broken.append(Broken("correspondence", "implementation driver failed", json.dumps(o)[:700], c))
-            continue
-        pairs.append((c, o))
+def parse_details(text):
+    """flat [index, locus, n, clause...]* -> {index: (clauses, locus)}"""
+    flat = core.parse_int_list(text)
+    det, i = {}, 0
+    while i < len(flat):
+        idx, loc, n = flat[i], flat[i + 1], flat[i + 2]
+        det[idx] = (flat[i + 3:i + 3 + n], loc)
+        i += 3 + n
+    return det
+
+
+def chunked(pairs, weight_of, cap, tag, emit):
     files, chunks = {}, {}
     cur, weight, k = [], 0, 0
     for c, o in pairs:
-        wgt = 1 + len(o.get("probes", []))
-        if cur and weight + wgt > 700:
-            files[f"{tag}_{k:03d}"], chunks[f"{tag}_{k:03d}"] = emit_file(cur), cur
+        wgt = weight_of(c, o)
+        if cur and weight + wgt > cap:
+            files[f"{tag}_{k:03d}"], chunks[f"{tag}_{k:03d}"] = emit(cur), cur
             cur, weight, k = [], 0, k + 1
         cur.append((c, o))
         weight += wgt
     if cur:
-        files[f"{tag}_{k:03d}"], chunks[f"{tag}_{k:03d}"] = emit_file(cur), cur
-    res = core.coq_eval_many(ctx, files, timeout=900, par=workers)
-    mism, viol = [], []
+        files[f"{tag}_{k:03d}"], chunks[f"{tag}_{k:03d}"] = emit(cur), cur
+    return files, chunks
+
+
+def is_hist(c):
+    return c.get("mode") in ("hist", "calib2")
+
+
+def correspondence(ctx: Ctx, cases, tag="c", workers=8):
+    """Direct / calibration cases and histories together: one driver pool, one batch of case files.
+    -> (mism, viol, pairs, hmism, hviol, hpairs)"""
+    obs = core.run_driver(ctx, "c10", cases, workers=workers)
+    pairs, hpairs = [], []
+    for c, o in zip(cases, obs):
+        if "crash" in o or "driver_error" in o or "calib_error" in o:
+            ctx.broken.append(Broken("correspondence", "implementation driver failed", json.dumps(o)[:700], c))
+            continue
+        (hpairs if is_hist(c) else pairs).append((c, o))
+    files, chunks = chunked(pairs, lambda c, o: 1 + len(o.get("probes", [])), 500, tag, emit_file)
+    hfiles, hchunks = chunked(hpairs, lambda c, o: 2 + len(hist_steps(c, o)), 90, tag + "h", emit_hist_file)
+    res = core.coq_eval_many(ctx, {**files, **hfiles}, timeout=900, par=workers)
+    mism, viol, hmism, hviol = [], [], [], []
     for name in sorted(files):
         ok, evals, se = res[name]
         chunk = chunks[name]
@@ -339,16 +560,19 @@ def correspondence(ctx: Ctx, cases, tag="c", workers=8):
             ctx.broken.append(Broken("correspondence", f"case file {name}.v did not evaluate", core.tail(se, 15)))
             continue
         mism += [chunk[i] for i in core.parse_int_list(evals[0])]
-        flat = core.parse_int_list(evals[2])
-        det = {}
-        i = 0
-        while i < len(flat):
-            idx, pb, n = flat[i], flat[i + 1], flat[i + 2]
-            det[idx] = (flat[i + 3:i + 3 + n], pb)
-            i += 3 + n
-        for i in core.parse_int_list(evals[1]):
-            cl, pb = det.get(i, ([0], -1))
+        for i, (cl, pb) in sorted(parse_details(evals[1]).items()):
             viol.append((chunk[i][0], chunk[i][1], cl, pb))
+        for i in core.parse_int_list(evals[2]):
+            ctx.gen_mismatch.append(chunk[i])
+    for name in sorted(hfiles):
+        ok, evals, se = res[name]
+        chunk = hchunks[name]
+        if not ok or len(evals) != 2:
+            ctx.broken.append(Broken("correspondence", f"case file {name}.v did not evaluate", core.tail(se, 15)))
+            continue
+        hmism += [chunk[i] for i in core.parse_int_list(evals[0])]
+        for i, (cl, st) in sorted(parse_details(evals[1]).items()):
+            hviol.append((chunk[i][0], chunk[i][1], st, cl))
     for c, o in pairs:
         n = len(o.get("probes", []))
         ctx.count("evaluations", max(n, 1))
@@ -363,10 +587,62 @@ def correspondence(ctx: Ctx, cases, tag="c", workers=8):
         for v in c["vars"]:
             ctx.dist("var_kind", ("scalar" if v["n"] is None else "vector") + ("/log" if v["log"] else "/lin")
                      + ("/per" if v["bnd"] and v["bnd"][0] == "per" else "/shared"))
-    return mism, viol, pairs
+    for c, o in hpairs:
+        steps = hist_steps(c, o)
+        ctx.count("evaluations", len(steps))
+        ctx.count("histories")
+        ctx.dist("mode", c["mode"])
+        ctx.dist("history_builds", sum(1 for st in steps if st["op"] == "build"))
+        ctx.dist("history_has_log_vector_per_component",
+                 any(v["n"] is not None and v["log"] and v["bnd"] and v["bnd"][0] == "per" for v in c["vars"]))
+        ctx.dist("history_reuses_earlier_problem_after_later_build", any(
+            st["op"] != "build" and st.get("pid", 0) < sum(1 for t in steps[:k] if t["op"] == "build") - 1
+            for k, st in enumerate(steps)))
+        ctx.dist("history_steps", min(len(steps), 14) if c["mode"] == "hist" else "calibration runs")
+        for st in steps:
+            ctx.dist("history_op", st.get("tag") or st["op"])
+        for v in c["vars"]:
+            ctx.dist("history_var_kind", ("scalar" if v["n"] is None else "vector") + ("/log" if v["log"] else "/lin")
+                     + ("/per" if v["bnd"] and v["bnd"][0] == "per" else "/shared"))
+    return mism, viol, pairs, hmism, hviol, hpairs
+
+
+def hist_layout_class(case, steps):
+    return dict(layout_class(case), builds=sum(1 for st in steps if st["op"] == "build"))
+
+
+def to_violation_hist(case, obs, k, clauses) -> Violation:
+    """k = index of the first offending step."""
+    steps = hist_steps(case, obs)
+    clause = CLAUSES.get(clauses[0], f"clause{clauses[0]}")
+    small = dict(case)
+    if case["mode"] == "hist" and "steps" in obs:
+        small["ops"] = case["ops"][:k + 1]        # the history up to the offending operation
+    st = steps[k] if 0 <= k < len(steps) else {}
+    observed = dict(step=k, op=st.get("op"), tag=st.get("tag"), pid=st.get("pid"))
+    for key in ("lb", "ub", "refused", "msg", "x", "conv", "applied", "error"):
+        if key in st:
+            observed[key] = st[key]
+    for key in ("lb", "ub", "x", "conv"):
+        if st.get(key):
+            observed[key + "_float"] = [repr(float.fromhex(v)) for v in st[key]]
+    if st.get("snap"):
+        observed["objects_after"] = st["snap"]
+    builds_before = sum(1 for t in steps[:k + 1] if t["op"] == "build")
+    sig = dict(clause=clause, tag=st.get("tag") or st.get("op"), history=True, builds=min(builds_before, 2),
+               **layout_class(case))
+    what = (f"{clause} ({', '.join(CLAUSES.get(c, str(c)) for c in clauses)}) at step {k} "
+            f"({st.get('tag') or st.get('op')}) of a history with {builds_before} problem construction(s) on the same "
+            f"objects: {[(v['key'], 'scalar' if v['n'] is None else v['n'], 'log' if v['log'] else 'lin', (v['bnd'] or ['none'])[0]) for v in case['vars']]}")
+    return Violation(clause=clause, case=small, observed=observed,
+                     expected="after any history on the same ParameterValues / processor objects the declared boundaries, "
+                              "placeholders and configured values are unchanged and every problem, conversion and "
+                              "assignment is what the declaration alone prescribes",
+                     what=what, sig=sig)
 
 
 def run(ctx: Ctx):
+    ctx.gen_mismatch = []
     ctx.trusted += TRUSTED
     ctx.assumptions += [
         "boundaries of logarithmic variables are positive (enforced by the code for scalars; hypothesis of "
@@ -374,13 +650,34 @@ def run(ctx: Ctx):
         "decision vectors have the dimension of get_bounds() (pygmo guarantees it; len(x) = total width is a "
         "hypothesis of the theorems)",
         "distinct keys for distinct variables",
+        "nobody but the modelled operations writes to the shared objects during a history (the caller does not edit the "
+        "list returned by get_bounds, the ParameterValues or the arrays it handed over)",
     ]
-    core.proof_leg(ctx, {}, PROP_FILE)
+    try:
+        gen = {"Gen_C10.v": translate(ctx.repo)}
+    except core.TranslationError as ex:
+        ctx.broken.append(Broken("translation", "translator/c10.py (walks of fitting_datatree.py / parameter_values.py)",
+                                 str(ex)))
+        ctx.log(f"translation failed (continuing with the description of the unchanged tree): {ex}")
+        gen = {"Gen_C10.v": FALLBACK}
+    core.proof_leg(ctx, gen, PROP_FILE)
+    # the case files need the generated description even when the property file no longer compiles
+    gdir = ctx.build / "gen"
+    if not (gdir / "Gen_C10.vo").exists():
+        gdir.mkdir(parents=True, exist_ok=True)
+        (gdir / "Gen_C10.v").write_text(gen["Gen_C10.v"])
+        core.coqc(ctx, gdir / "Gen_C10.v", [(gdir, "PyxelGen")], 300)
 
     calibs = [("sade", 1, 1), ("sga", 2, 1)] if ctx.quick else \
         [(a, s, i) for a in ("sade", "sga", "nlopt") for s in (1, 2) for i in (1, 2)][:12]
     cases = gen_cases(ctx, ctx.budget(150, 900), ctx.budget(30, 150), calibs)
-    mism, viol, pairs = correspondence(ctx, cases)
+    calib2s = [[("sade", 1, 2), ("sga", 2, 2)]] if ctx.quick else \
+        [[("sade", 1, 1), ("sga", 2, 1)], [("sga", 3, 2), ("sade", 4, 2), ("nlopt", 5, 1)],
+         [("nlopt", 6, 1), ("sade", 7, 1)], [("sade", 8, 2), ("sade", 8, 2)]]
+    hcases = gen_histories(ctx, ctx.budget(40, 300), calib2s)
+    # the slow payloads (real calibrations) first, so that the pool is busy to the end
+    allc = sorted(cases + hcases, key=lambda c: 0 if c.get("mode") in ("calib", "calib2") else 1)
+    mism, viol, pairs, hmism, hviol, hpairs = correspondence(ctx, allc)
     seen = set()
     for c, o in pairs:
         if len(c["vars"]) >= 2 or any(v["n"] is not None for v in c["vars"]):
@@ -392,18 +689,39 @@ def run(ctx: Ctx):
                        "arguments) and update_processor; plus real calibrations whose every logged evaluation, champion "
                        "and best individual is checked. distinct = distinct declarations; non-trivial = at least two "
                        "variables or one vector variable")
-    ctx.cov["traces_validated_against_impl"] = len(pairs)
-    ctx.cov["disagreements_checked"] = len(mism)
+    hseen = set()
+    for c, o in hpairs:
+        hseen.add(json.dumps([c["vars"], c.get("ops") or c.get("runs")], sort_keys=True))
+    ctx.cov["distinct_histories"] = len(hseen)
+    ctx.cov["history_rule"] = ("one history = the SAME ParameterValues objects and processor used for >= 2 problem "
+                               "constructions interleaved with get_bounds / convert_to_parameters / fitness / "
+                               "update_processor on any problem built so far, or Calibration.run_calibration called "
+                               "several times on the same Calibration; after every operation the objects are read back "
+                               "(boundaries, placeholders, flags, configured values of the caller's processor and of every "
+                               "problem's own processor) and judged in Coq against the declaration")
+    ctx.cov["traces_validated_against_impl"] = len(pairs) + len(hpairs)
+    ctx.cov["disagreements_checked"] = len(mism) + len(hmism) + len(ctx.gen_mismatch)
     ctx.cov["log_tolerance"] = "2^-50 relative (4 ulp) on np.power(10, x), math.log10, np.log10; exact elsewhere"
     for c, o in pairs[:3]:
         ctx.sample(dict(vars=c["vars"], bounds=[o.get("lb"), o.get("ub")],
                         first_probe=(o.get("probes") or [None])[0]))
     for c, o, cl, pb in viol:
         ctx.violations.append(to_violation(c, o, cl, pb))
-    (ctx.build / "mismatches.json").write_text(json.dumps([dict(case=c, observed=o) for c, o in mism][:20], indent=1))
+    for c, o, st, cl in hviol:
+        ctx.violations.append(to_violation_hist(c, o, st, cl))
+    (ctx.build / "mismatches.json").write_text(json.dumps(
+        [dict(case=c, observed=o) for c, o in (mism + hmism + ctx.gen_mismatch)][:20], indent=1))
     for c, o in mism:
         ctx.broken.append(Broken("correspondence", "Model/Decision.v vs implementation",
                                  f"model and implementation differ on {[v['key'] for v in c['vars']]}",
+                                 dict(case=c)))
+    for c, o in ctx.gen_mismatch:
+        ctx.broken.append(Broken("correspondence", "walks of the generated description (Gen_C10.v) vs implementation",
+                                 f"the description read from the source and the implementation differ on "
+                                 f"{[v['key'] for v in c['vars']]}", dict(case=c)))
+    for c, o in hmism:
+        ctx.broken.append(Broken("correspondence", "object-store model (generated description) vs implementation",
+                                 f"model and implementation differ on a history over {[v['key'] for v in c['vars']]}",
                                  dict(case=c)))
     if ctx.broken and not new_violations(ctx):
         search(ctx)
@@ -423,10 +741,15 @@ def search(ctx: Ctx):
     for k, (algo, seed, islands) in enumerate([("sade", 3, 2), ("sga", 4, 2), ("sade", 5, 1), ("nlopt", 6, 1)]):
         cases.append(make_case(r, FIXED_LAYOUTS[(k + 1) % 6], mode="calib", algo=algo, seed=seed, islands=islands,
                                generations=3, pop=8, evolutions=2, num_best=4))
-    mism, viol, pairs = correspondence(ctx, cases, tag="s")
+    hcases = [gen_history(r, lay, n_ops=10) for lay in FIXED_LAYOUTS[:9] + FIXED_LAYOUTS[10:] for _ in range(2)]
+    hcases += [gen_history(r) for _ in range(120)]
+    hcases.append(gen_calib2(r, FIXED_LAYOUTS[4], [("sade", 11, 1), ("sade", 12, 1), ("sga", 13, 1)]))
+    mism, viol, pairs, hmism, hviol, hpairs = correspondence(ctx, cases + hcases, tag="s")
     for c, o, cl, pb in viol:
         ctx.violations.append(to_violation(c, o, cl, pb))
-    ctx.cov["search_cases"] = len(pairs)
+    for c, o, st, cl in hviol:
+        ctx.violations.append(to_violation_hist(c, o, st, cl))
+    ctx.cov["search_cases"] = len(pairs) + len(hpairs)
 
 
 def replay(ctx: Ctx, rp: dict) -> int:
@@ -435,8 +758,14 @@ def replay(ctx: Ctx, rp: dict) -> int:
         print(f"replay names a {rp.get('kind')} that no longer checks: {rp.get('no_longer_checks')}")
         print(rp.get("detail", ""))
         return 1
+    try:
+        gen_text = translate(ctx.repo)
+    except core.TranslationError:
+        gen_text = FALLBACK
     obs = core.run_driver(ctx, "c10", [case], workers=1)[0]
     print("case:", json.dumps({k: case[k] for k in case if k != "xs"})[:1500])
+    if case.get("mode") in ("hist", "calib2"):
+        return replay_hist(ctx, case, obs, gen_text)
     for x in case.get("xs", []):
         print("decision vector:", [float.fromhex(v) for v in x])
     if "probes" not in obs and "refused" not in obs:
@@ -444,15 +773,14 @@ def replay(ctx: Ctx, rp: dict) -> int:
         return 1
     print("implementation: bounds", [float.fromhex(v) for v in obs.get("lb", [])],
           [float.fromhex(v) for v in obs.get("ub", [])], obs.get("refused", ""))
-    core.ensure_lib(ctx, targets=core.lib_targets_of([emit_file([])]))
-    (ctx.build / "gen").mkdir(parents=True, exist_ok=True)
+    prepare_gen(ctx, gen_text)
     ok, evals, se = core.coq_eval(ctx, "replay", emit_file([(case, obs)]))
     if not ok or len(evals) != 3:
         print("case file did not evaluate:", core.tail(se, 10))
         return 1
     bad = core.parse_int_list(evals[1]) != []
     if bad:
-        flat = core.parse_int_list(evals[2])
+        flat = core.parse_int_list(evals[1])
         cl, pb = flat[3:3 + flat[2]], flat[1]
         print("clauses violated:", [CLAUSES.get(c, c) for c in cl])
         if 0 <= pb < len(obs.get("probes", [])):
@@ -464,26 +792,90 @@ def replay(ctx: Ctx, rp: dict) -> int:
     return 1 if bad else 0
 
 
+def prepare_gen(ctx: Ctx, gen_text: str):
+    core.ensure_lib(ctx, targets=core.lib_targets_of([emit_file([])]))
+    gdir = ctx.build / "gen"
+    gdir.mkdir(parents=True, exist_ok=True)
+    (gdir / "Gen_C10.v").write_text(gen_text)
+    core.coqc(ctx, gdir / "Gen_C10.v", [(gdir, "PyxelGen")], 300)
+
+
+def replay_hist(ctx: Ctx, case, obs, gen_text) -> int:
+    if "steps" not in obs and "refused_objects" not in obs:
+        print("implementation driver failed:", json.dumps(obs)[:800])
+        return 1
+    steps = hist_steps(case, obs)
+    for k, st in enumerate(steps[:40]):
+        line = f"  step {k}: {st.get('tag') or st['op']}"
+        if "pid" in st:
+            line += f" on problem {st['pid']}"
+        if "lb" in st:
+            line += f"  bounds {[float.fromhex(v) for v in st['lb']]} .. {[float.fromhex(v) for v in st['ub']]}"
+        if "refused" in st:
+            line += f"  refused: {st['refused']}"
+        if st.get("x"):
+            line += f"  x = {[float.fromhex(v) for v in st['x']]}"
+        print(line)
+    prepare_gen(ctx, gen_text)
+    ok, evals, se = core.coq_eval(ctx, "replay", emit_hist_file([(case, obs)]))
+    if not ok or len(evals) != 2:
+        print("case file did not evaluate:", core.tail(se, 10))
+        return 1
+    bad = core.parse_int_list(evals[1]) != []
+    if bad:
+        flat = core.parse_int_list(evals[1])
+        k, cl = flat[1], flat[3:3 + flat[2]]
+        print(f"first offending step: {k}; clauses violated:", [CLAUSES.get(c, c) for c in cl])
+        if 0 <= k < len(steps):
+            sn = steps[k].get("snap") or {}
+            for v, d in zip(sn.get("vars", []), case["vars"]):
+                if v.get("bnd") != d["bnd"]:
+                    def fl(b):
+                        if not b or b[0] not in ("shared", "per"):
+                            return b
+                        return [float.fromhex(x) for x in b[1:]] if b[0] == "shared" else \
+                            [[float.fromhex(lo), float.fromhex(hi)] for lo, hi in b[1]]
+                    print(f"  ParameterValues {v['key']}: boundaries now {fl(v['bnd'])}, declared {fl(d['bnd'])}")
+    print("specification (evaluated in Coq):", "VIOLATED" if bad else "holds")
+    return 1 if bad else 0
+
+
 META = dict(
     level_text=(
         "Coq theorems, for every list of calibrated variables (any mix of scalar/vector, linear/logarithmic, "
-        "shared/per-component boundaries), every decision vector and every element type: the three functions that walk "
-        "the decision vector (_set_bound, convert_to_parameters, update_processor), modelled as coded with their running "
+        "shared/per-component boundaries), every decision vector and every element type: the functions that walk the "
+        "decision vector (_set_bound, convert_to_parameters, update_processor), modelled as coded with their running "
         "offsets, use the same consecutive disjoint slices in declaration order; the conversion touches exactly the "
         "slices of logarithmic variables; what is reported equals what is handed to Processor.set; refusal rule of the "
-        "constructor; and over the reals a vector inside the optimiser's box yields parameters inside the declared "
-        "boundaries. The model is hand-written (no translator); that the Python code behaves like the model is "
-        "established by correspondence, i.e. by testing: the real ModelFittingDataTree is driven directly (get_bounds, "
-        "convert_to_parameters 1-D/2-D/DataArray, fitness with a probe model, update_processor) on generated "
-        "declarations and dyadic / power-of-ten vectors, and real tiny calibrations are run whose every logged "
-        "evaluation, champion and best individual is judged inside Coq against the specification."),
+        "constructor; over the reals a vector inside the optimiser's box yields parameters inside the declared "
+        "boundaries. These theorems are re-proved on every run over a DESCRIPTION of the loops that a fail-closed "
+        "translator reads from the current source (iteration order, per class of variable which element/column of the "
+        "boundaries goes to the lower/upper list and whether log10 is applied by rebinding or in place, the slice "
+        "[start, stop) that gets 10** and the new offset as linear forms, the index/slice handed to Processor.set, which "
+        "copies are taken): C10_source_as_modelled + C10_src_*. Over an explicit object store (the ParameterValues "
+        "objects, a heap of processors, the problems built so far) C10_history_independent proves for EVERY history "
+        "of problem constructions, get_bounds, convert_to_parameters, fitness and update_processor calls on the same "
+        "objects that the declaration and every existing processor are unchanged and every observation is the "
+        "history-free function of the declaration (C10_builds_idempotent: a problem built after any history has the "
+        "box of the first). What the translator does not read (numpy/pygmo/xarray behaviour, Processor.set, deepcopy) "
+        "and the translator's own reading are tied by correspondence, i.e. by testing: the real ModelFittingDataTree "
+        "is driven directly and through histories on shared objects (objects read back after every operation), real "
+        "tiny calibrations and Calibration.run_calibration called twice on the same Calibration are run, and every "
+        "logged evaluation, champion, best individual and final application of the champions' parameters is judged "
+        "inside Coq against the specification; the generated description is run inside Coq against the same "
+        "observations."),
     level_note=(
-        "Trusted: Coq kernel + vm_compute; real-number axioms + classic for C10_in_bounds only (the structural theorems "
-        "are closed); the correspondence harness and probe; numpy slicing/copy semantics; np.power/log10 within 4 ulp "
-        "(tolerance on the implementation-side comparison only); pygmo proposes vectors inside the box and reports "
-        "evaluated individuals (both checked on every logged evaluation, not proved). Float rounding of 10**log10(lo) is "
-        "not carried by the theorem over R."),
-    technique="Coq proof by induction over the variable list (generic element type) + real-analysis bound + in-Coq "
-              "correspondence/spec evaluation on the real problem object and real calibrations",
+        "Trusted: Coq kernel + vm_compute; real-number axioms + classic for C10_in_bounds / C10_src_in_bounds only (the "
+        "structural and history theorems are closed); translator/c10.py (fail-closed; its output is also evaluated "
+        "against the implementation); the correspondence harness and probe; numpy slicing/copy/view semantics as "
+        "modelled (a column of a 2-D array is a view, np.array copies, x = f(x) rebinds, f(x, out=x) writes); np.power/"
+        "log10 within 4 ulp (tolerance on the implementation-side comparison only); copy.deepcopy and Processor.set as "
+        "modelled (values by value); pygmo proposes vectors inside the box and reports evaluated individuals (checked "
+        "on every logged evaluation, not proved). Float rounding of 10**log10(lo) is not carried by the theorem over "
+        "R. Problems with several processors (result_input_arguments) are not driven."),
+    technique="Coq proof by induction over the variable list / over histories (generic element type, explicit object "
+              "store) + fail-closed python-ast translator of the loops with the theorems re-proved over the generated "
+              "description + real-analysis bound + in-Coq correspondence/spec evaluation on the real problem object, on "
+              "histories over shared objects and on real calibrations",
     design_ref="DESIGN.md section 6, C10",
 )
